@@ -2425,9 +2425,6 @@ class Attribute(object):
                       % (attr.entity.__name__, old_dbval, attr.reverse)
             throw(UnrepeatableReadError, msg)
 
-        if new_dbval is NOT_LOADED: obj._dbvals_.pop(attr, None)
-        else: obj._dbvals_[attr] = new_dbval
-
         wbit = bool(obj._wbits_ & bit)
         if not wbit:
             old_val = obj._vals_.get(attr, NOT_LOADED)
@@ -2441,14 +2438,9 @@ class Attribute(object):
                     vals[i] = new_dbval
                     new_vals = tuple(vals)
                     cache.db_update_composite_index(obj, attrs, old_vals, new_vals)
-            if new_dbval is NOT_LOADED:
-                obj._vals_.pop(attr, None)
-            elif attr.reverse:
-                obj._vals_[attr] = new_dbval
-            else:
-                assert len(attr.converters) == 1
-                obj._vals_[attr] = attr.converters[0].dbval2val(new_dbval, obj)
 
+        # the other side is told before the value is stored: if it refuses (the row refers to something the
+        # session cannot reconcile with what it holds) the object is left as it was
         reverse = attr.reverse
         if not reverse: pass
         elif not is_reverse_call: attr.db_update_reverse(obj, old_dbval, new_dbval)
@@ -2458,6 +2450,17 @@ class Attribute(object):
             elif isinstance(reverse, Set):
                 reverse.db_reverse_remove((old_dbval,), obj)
             else: throw(NotImplementedError)
+
+        if new_dbval is NOT_LOADED: obj._dbvals_.pop(attr, None)
+        else: obj._dbvals_[attr] = new_dbval
+        if not wbit:
+            if new_dbval is NOT_LOADED:
+                obj._vals_.pop(attr, None)
+            elif attr.reverse:
+                obj._vals_[attr] = new_dbval
+            else:
+                assert len(attr.converters) == 1
+                obj._vals_[attr] = attr.converters[0].dbval2val(new_dbval, obj)
     def update_reverse(attr, obj, old_val, new_val, undo_funcs):
         reverse = attr.reverse
         if not reverse.is_collection:
